@@ -50,41 +50,55 @@ def findVal {V} (bs : List (String × V)) (tv : String) : Option V :=
   | [] => none
   | (t, v) :: rest => if t = tv then some v else findVal rest tv
 
+/-- The binding (if any) of the type variable of actual position `i`, on values. -/
+def valTarget {V} (sig : Sig) (bs : List (String × V)) (i : Nat) : Option V :=
+  match formalTv sig i with
+  | some (some tv) => findVal bs tv
+  | _ => none
+
+/-- One actual after promotion: a tensor is passed as is; a Python scalar becomes the `Constant` of its
+default dtype, cast like the sibling tensor sharing its type variable when there is one. -/
+def promoteOne {V} (S : Sem V) (a : PV V) (tgt : Option V) : Option V :=
+  match a with
+  | .t v => some v
+  | .py l =>
+    match constOf S l with
+    | none => none
+    | some c =>
+      match tgt with
+      | none => some c
+      | some y =>
+        match S.op "" "CastLike" [some c, some y] [] with
+        | some [v] => some v
+        | _ => none
+
 /-- Second pass on values. -/
 def promoteArgs {V} (S : Sem V) (sig : Sig) (bs : List (String × V)) : List (PV V) → Nat → Option (List V)
   | [], _ => some []
   | a :: as, i =>
-    let one : Option V :=
-      match a with
-      | .t v => some v
-      | .py l =>
-        match constOf S l with
-        | none => none
-        | some c =>
-          match (match formalTv sig i with | some (some tv) => findVal bs tv | _ => none) with
-          | none => some c
-          | some y =>
-            match S.op "" "CastLike" [some c, some y] [] with
-            | some [v] => some v
-            | _ => none
-    match one, promoteArgs S sig bs as (i + 1) with
+    match promoteOne S a (valTarget sig bs i), promoteArgs S sig bs as (i + 1) with
     | some v, some vs => some (v :: vs)
     | _, _ => none
+
+/-- The tensor actually handed to the operator for a Python-level value that needs no cast. -/
+def plainVal {V} (S : Sem V) : PV V → Option V
+  | .t v => some v
+  | .py l => constOf S l
+
+/-- The operand tensors of a call after promotion (`autocast.cast_inputs` applied to values). -/
+def argVals {V} (S : Sem V) (sig : Sig) (args : List (PV V)) : Option (List V) :=
+  if !sig.known then args.mapM (plainVal S)
+  else
+    match valBindings sig args 0 [] with
+    | none => none
+    | some bs => promoteArgs S sig bs args 0
 
 /-- Apply an operator to Python-level values (promotion included). -/
 def applyOp {V} (S : Sem V) (dom op : String) (sig : Sig) (args : List (PV V))
     (attrs : List (String × AttrV)) : Option (List V) :=
-  if !sig.known then
-    match args.mapM (fun a => match a with | .t v => some v | .py l => constOf S l) with
-    | none => none
-    | some vs => S.op dom op (vs.map some) attrs
-  else
-    match valBindings sig args 0 [] with
-    | none => none
-    | some bs =>
-      match promoteArgs S sig bs args 0 with
-      | none => none
-      | some vs => S.op dom op (vs.map some) attrs
+  match argVals S sig args with
+  | none => none
+  | some vs => S.op dom op (vs.map some) attrs
 
 def single {V} : Option (List V) → Option (PV V)
   | some [v] => some (.t v)
@@ -273,5 +287,17 @@ def opsOnly : List Node → Bool
   | [] => true
   | .op _ _ _ _ _ :: ns => opsOnly ns
   | _ :: _ => false
+
+end OV.C01
+
+namespace OV.C01
+
+/-- Straight-line bodies: assignments (and docstrings) followed by one `return e1, …, en`. -/
+def straightLine : List Stmt → Bool
+  | [] => false
+  | [.ret _ bare] => !bare
+  | .assign _ _ :: ss => straightLine ss
+  | .skip :: ss => straightLine ss
+  | _ => false
 
 end OV.C01
